@@ -6,6 +6,7 @@ import (
 	"go/parser"
 	"go/token"
 	"go/types"
+	"sort"
 	"strings"
 
 	"golang.org/x/tools/go/ssa"
@@ -250,6 +251,11 @@ func (t *FnTrans) call(x *ssa.Call, c *ssa.CallCommon, st *HeapState, reach stri
 			t.setVal(x, t.havocVal(x.Type(), "str"))
 			return
 		}
+		// assumed contract for an interface method, keyed by its full name
+		if con := t.W.contracts[c.Method.FullName()]; con != nil {
+			t.invokeContractCall(x, c, con, args, st, reach)
+			return
+		}
 		t.unknownCall(x, "interface method "+c.Method.FullName(), st)
 		return
 	}
@@ -288,7 +294,7 @@ func (t *FnTrans) call(x *ssa.Call, c *ssa.CallCommon, st *HeapState, reach stri
 func (t *FnTrans) unknownCall(x *ssa.Call, name string, st *HeapState) {
 	t.unknownCalls[name]++
 	t.frameCheck("unknown-call:"+name, x.Pos(), t.reach[x.Block()])
-	t.replaceState(st, t.havocAll(st))
+	t.replaceState(st, t.havocAllKeepGhost(st))
 	t.setVal(x, t.havocVal(x.Type(), "unk"))
 }
 
@@ -841,10 +847,7 @@ func (t *FnTrans) siteHook(kind string, in ssa.Instruction, b *ssa.BasicBlock, i
 		if s.Text != "" && !strings.HasPrefix(text, s.Text) {
 			continue
 		}
-		key := fmt.Sprintf("%s|%s", s.Kind, s.Text)
-		cntKey := fmt.Sprintf("%p|%s", s, key)
-		t.siteCount[cntKey]++
-		if t.siteCount[cntKey] != s.Ordinal {
+		if t.siteOrdinal(s, kind, in) != s.Ordinal {
 			continue
 		}
 		t.sitesMatched[s] = true
@@ -892,6 +895,9 @@ func (t *FnTrans) siteHook(kind string, in ssa.Instruction, b *ssa.BasicBlock, i
 					}
 				}()
 				o := env.eval(ce.Args[0])
+				if o.K == VConst {
+					o = scalar(nil, "0")
+				}
 				lit := ce.Args[1].(*ast.BasicLit)
 				gname := strings.Trim(lit.Value, "\"")
 				gt := t.W.ghostType(gname)
@@ -933,3 +939,105 @@ func (t *FnTrans) callText(x *ssa.Call) string {
 	return nodeText(t.W.fset, found)
 }
 
+
+// invokeContractCall: call through an interface with an assumed contract.
+func (t *FnTrans) invokeContractCall(x *ssa.Call, c *ssa.CallCommon, con *Contract, args []Val, st *HeapState, reach string) {
+	name := c.Method.FullName()
+	t.assumedUsed[name] = true
+	sig := c.Method.Type().(*types.Signature)
+	vars := map[string]Val{}
+	for i := 0; i < sig.Params().Len() && i < len(args); i++ {
+		p := sig.Params().At(i)
+		vars[p.Name()] = t.materialize(args[i], p.Type())
+	}
+	pre := &Env{t: t, st: st.clone(), vars: vars, pkg: c.Method.Pkg()}
+	pre.old = pre
+	for k, cl := range con.Requires {
+		t.addObl("requires@call", c.Method.Name()+":"+fmt.Sprint(k+1), reach, Formula{Clause: cl, Env: pre}, x.Pos(), cl.Text)
+	}
+	if !con.Pure {
+		t.frameCheck("call:"+name, x.Pos(), reach)
+		t.replaceState(st, t.havocAllKeepGhost(st))
+	}
+	res := t.havocVal(x.Type(), "ret."+c.Method.Name())
+	t.setVal(x, res)
+	post := &Env{t: t, st: st.clone(), vars: map[string]Val{}, pkg: pre.pkg, old: pre, guard: reach}
+	for k, v := range vars {
+		post.vars[k] = v
+	}
+	if sig.Results().Len() == 1 {
+		post.vars["result"], post.vars["result0"] = res, res
+	} else if res.K == VTuple {
+		for i, v := range res.Sub {
+			post.vars[fmt.Sprintf("result%d", i)] = v
+			if i == 0 {
+				post.vars["result"] = v
+			}
+		}
+	}
+	for _, cl := range con.Ensures {
+		t.assumps = append(t.assumps, Assump{Guard: reach, F: Formula{Clause: cl, Env: post}, Why: "ensures of " + name + " (ASSUMED)"})
+	}
+}
+
+// siteOrdinal: 1-based rank of the instruction among all instructions of the
+// function that match the site's kind and text, in source order.
+func (t *FnTrans) siteOrdinal(s *SiteSpec, kind string, in ssa.Instruction) int {
+	if t.siteRanks == nil {
+		t.siteRanks = map[*SiteSpec]map[ssa.Instruction]int{}
+	}
+	if m, ok := t.siteRanks[s]; ok {
+		return m[in]
+	}
+	type cand struct {
+		in  ssa.Instruction
+		pos token.Pos
+		ord int
+	}
+	var cs []cand
+	n := 0
+	for _, b := range t.fn.Blocks {
+		for _, i2 := range b.Instrs {
+			n++
+			var text string
+			ok := false
+			switch x := i2.(type) {
+			case *ssa.Call:
+				if kind == "call" {
+					text, ok = t.callText(x), true
+				}
+			case *ssa.Store:
+				if kind == "store" {
+					text, ok = t.srcText(x.Pos()), true
+				}
+			case *ssa.MapUpdate:
+				if kind == "mapupdate" {
+					text, ok = t.srcText(x.Pos()), true
+				}
+			case *ssa.Return:
+				if kind == "return" {
+					text, ok = "", true
+				}
+			}
+			if !ok {
+				continue
+			}
+			if s.Text != "" && !strings.HasPrefix(text, s.Text) {
+				continue
+			}
+			cs = append(cs, cand{i2, i2.Pos(), n})
+		}
+	}
+	sort.SliceStable(cs, func(i, j int) bool {
+		if cs[i].pos != cs[j].pos {
+			return cs[i].pos < cs[j].pos
+		}
+		return cs[i].ord < cs[j].ord
+	})
+	m := map[ssa.Instruction]int{}
+	for i, c := range cs {
+		m[c.in] = i + 1
+	}
+	t.siteRanks[s] = m
+	return m[in]
+}
